@@ -11,6 +11,7 @@ from ..engine.core import viol, result, h64
 from ..ref import camx_u, rfortran as rf
 from .. import camx_lib as cl
 
+RECORD_READERS = ('uamiv', 'temperature', 'height_pressure', 'humidity', 'vertical_diffusivity', 'wind', 'one3d')
 WRITABLE = ('uamiv', 'lateral_boundary', 'humidity', 'vertical_diffusivity', 'one3d', 'temperature',
             'height_pressure', 'wind', 'cloud_rain')
 
@@ -277,6 +278,29 @@ class Prop(core.Prop):
             except Exception as e:
                 vs.append(viol('write-raises', ('writer', fmt), '%s: %r' % (type(e).__name__, e),
                                exc=type(e).__name__, **scope))
+        # direction (ii'): the sequential record reader, where it accepts the file with the right step count
+        # (its calendar arithmetic is C13's business: files it rejects or mis-counts are skipped here)
+        if fmt in RECORD_READERS and not vs:
+            import signal
+            signal.setitimer(signal.ITIMER_REAL, 3.0)
+            try:
+                fr = cl.open_rd(fmt, p, r)
+                if len(fr.dimensions['TSTEP']) == len(r['steps']) and len(fr.dimensions['LAY']) == r['nz']:
+                    for nm in cl.varnames(r):
+                        if nm in fr.variables.keys():
+                            got = np.asarray(fr.variables[nm][...])
+                            exp = cl.expected_var(r, nm)
+                            if not cl.squeeze_equal(got, exp):
+                                vs.append(viol('read-data', ('record-reader', fmt), '%s: record reader gives %s, '
+                                               'encoded %s' % (nm, got.ravel()[:4], exp.ravel()[:4]), **scope))
+                                break
+                    ntrans += 1
+            except core.Timeout:
+                pass
+            except Exception:
+                pass
+            finally:
+                signal.setitimer(signal.ITIMER_REAL, self.HORIZON)
         if fmt in ('uamiv', 'lateral_boundary'):
             vs.extend(self.hand_built(d, r, raw, scope))
             ntrans += 1
